@@ -152,6 +152,53 @@ pub fn diag() {
 }
 
 /// the inputs of C20: the C04 space, a stride of the C01 cases and the C06 token mutations
+pub fn multi_module_docs() -> Vec<String> {
+    const A2MLS: [Option<&str>; 5] = [
+        None,
+        Some("block \"IF_DATA\" taggedunion { \"ZZ\" uint; \"YY\" struct { uint; uint; }; };"),
+        Some("block \"IF_DATA\" taggedunion { \"ZZ\" ulong; \"YY\" struct { ulong; ulong; }; };"),
+        Some("block \"IF_DATA\" taggedunion { \"ZZ\" float; \"YY\" struct { uint; float; }; };"),
+        Some("block \"IF_DATA\" taggedunion { \"ZZ\" char[8]; \"YY\" (uint)*; };"),
+    ];
+    const PAYLOADS: [Option<&str>; 6] = [None, Some("ZZ 1"), Some("ZZ 0x12345"), Some("ZZ 1.5"), Some("ZZ \"s\""), Some("YY 1 2")];
+    let module = |name: &str, a: Option<&str>, p: Option<&str>, q: Option<&str>| {
+        let mut s = format!("  /begin MODULE {name} \"\"\n");
+        if let Some(a) = a {
+            s.push_str(&format!("    /begin A2ML\n      {a}\n    /end A2ML\n"));
+        }
+        if let Some(p) = p {
+            s.push_str(&format!("    /begin IF_DATA {p}\n    /end IF_DATA\n"));
+        }
+        s.push_str(&format!("    /begin MEASUREMENT {name}_x \"\" UBYTE NO_COMPU_METHOD 0 0 0 255\n"));
+        if let Some(q) = q {
+            s.push_str(&format!("      /begin IF_DATA {q}\n      /end IF_DATA\n"));
+        }
+        s.push_str("    /end MEASUREMENT\n  /end MODULE\n");
+        s
+    };
+    let doc = |mods: &[String]| format!("ASAP2_VERSION 1 71\n/begin PROJECT p \"\"\n{}/end PROJECT\n", mods.concat());
+    let mut out = Vec::new();
+    // two modules: every pair of definitions, every pair of payloads (module level in the first, both levels in the second)
+    for a0 in A2MLS {
+        for a1 in A2MLS {
+            for p0 in PAYLOADS {
+                for p1 in PAYLOADS {
+                    out.push(doc(&[module("m0", a0, p0, None), module("m1", a1, p1, p0)]));
+                }
+            }
+        }
+    }
+    // three modules over three definitions and two payloads
+    for a in 0..27usize {
+        for p in 0..8usize {
+            let defs = [A2MLS[1 + a % 3], A2MLS[1 + (a / 3) % 3], A2MLS[1 + (a / 9) % 3]];
+            let pls = [[PAYLOADS[2], PAYLOADS[3]][p % 2], [PAYLOADS[2], PAYLOADS[3]][(p / 2) % 2], [PAYLOADS[2], PAYLOADS[3]][(p / 4) % 2]];
+            out.push(doc(&[module("m0", defs[0], pls[0], None), module("m1", defs[1], None, pls[1]), module("m2", defs[2], pls[2], pls[2])]));
+        }
+    }
+    out
+}
+
 fn dump_corpus(tier: &str, path: &str) {
     use std::io::Write;
     let g = corpus::grammar();
@@ -194,6 +241,10 @@ fn dump_corpus(tier: &str, path: &str) {
             texts.push(s);
         }
     }
+    // several MODULEs, each with its own (or without an) A2ML block, and IF_DATA at module level and inside a MEASUREMENT that
+    // fits one, both or neither of the definitions: which definition reads which block, in which order they are tried and what
+    // an unsuccessful attempt leaves behind (uids) is behaviour of the hand-maintained A2ml::parse / IfData::parse
+    texts.extend(multi_module_docs());
     let mut seen = std::collections::HashSet::new();
     texts.retain(|t| seen.insert(vcore::explore::fnv1a(t.as_bytes())));
     let mut f = std::io::BufWriter::new(std::fs::File::create(path).expect("cannot create corpus file"));
